@@ -32,9 +32,11 @@ def outStr : Out → String
 
 def step (_ : Unit) (w : List String) : Option (Unit × String × List String) :=
   match w with
-  | "retry" :: rate :: cancel :: items => do
+  | "retry" :: rate :: cancel :: allItems => do
     let rate ← rate.toInt?
-    let items ← items.mapM parseItem
+    let items ← (allItems.takeWhile (· != "|")).mapM parseItem
+    let second := allItems.contains "|"
+    let items2 ← ((allItems.dropWhile (· != "|")).drop 1).mapM parseItem
     let (pre, wc) ← (if cancel == "none" then some (false, none)
       else if cancel == "pre" then some (true, none)
       else if cancel.startsWith "w" then (cancel.drop 1).toString.toNat?.map (fun k => (false, some k))
@@ -49,7 +51,14 @@ def step (_ : Unit) (w : List String) : Option (Unit × String × List String) :
       (if items.any (·.cancelDuring) then ["cancel_during_call"] else []) ++
       (if wc.isSome && r.err == .ctx then ["cancel_during_wait"] else []) ++
       (if rate ≤ 0 then ["default_rate"] else [])
-    some ((), s!"res={res} err={outStr r.err} calls={r.calls} cs={fmtNats r.cs} rate={if r.cs.isEmpty then 0 else effRate}", tags)
+    let first := s!"res={res} err={outStr r.err} calls={r.calls} cs={fmtNats r.cs} rate={if r.cs.isEmpty then 0 else effRate}"
+    if !second then some ((), first, tags) else
+    -- the same returned function invoked again: a fresh counter; the context stays cancelled if it was
+    let ctxCancelled := pre || r.err == .ctx || (items.take r.calls).any (·.cancelDuring)
+    let r2 := retry items2 ctxCancelled none 0 0 []
+    if r2.exhausted then some ((), first ++ " | exhausted", tags) else
+    let res2 := match r2.result with | some n => toString n | none => "nil"
+    some ((), first ++ s!" | res={res2} err={outStr r2.err} calls={r2.calls} cs={fmtNats r2.cs}", tags ++ ["second_invocation"])
   | ["calcobs", rate, c, d] => do
     let rate ← rate.toInt?
     let c ← c.toNat?
